@@ -429,7 +429,9 @@ class SliceProjectionOp(LinearOperator):
         )
 
         # We need this at the edge of the volume to approximate zero padding
-        fraction_in_view = (mask * (weight > 0)).sum(-1) / (weight > 0).sum(-1)
+        # (the weights in view over all weights, i.e. zero padding; counting the points instead would give a neighbor
+        # outside the volume that only carries a rounding-size weight the same say as the voxel the pixel lies on)
+        fraction_in_view = ((mask * weight).sum(-1) / weight.sum(-1).clamp_min(torch.finfo(weight.dtype).tiny)).float()
 
         source_index = torch.tensor(
             np.ravel_multi_index(source[mask].unbind(-1), (input_shape.z, input_shape.y, input_shape.x))
